@@ -225,7 +225,7 @@ PROPS["C13"] = {
     "title": "Transforms: exact inverse pairs, in bounds, clean decline", "design_ref": "5.13", "level": "proof",
     "technique": "PARTIAL Lean proof: Null, ZRLT, SBRT (all modes), RLT (incl. totality of Inverse on arbitrary input), SRT and the transform sequence with skip flags proved as inverse pairs with output bounds; byte-identical differential tie; all 19 transforms searched directly with canaries",
     "facts": ["Consts"],
-    "theorems": T(M13, "C13_null", "C13_zrlt", "C13_zrlt_bytes", "C13_zrlt_no_wrap", "C13_sbrt", "C13_sequence", "C13_sequence_plain", "C13_sequence_all_declined", "C13_sequence_mode_byte", "C13_sequence_len", "C13_sequence_small")
+    "theorems": T(M13, "C13_null", "C13_zrlt", "C13_zrlt_bytes", "C13_zrlt_no_wrap", "C13_sbrt", "C13_sequence", "C13_sequence_plain", "C13_sequence_all_declined", "C13_sequence_mode_byte", "C13_sequence_len", "C13_sequence_small", "C13_sequence_dst")
                 + T("Kanzi.Properties.C13_rlt", "C13_rlt", "C13_rlt_total", "C13_rlt_bytes", "C13_rlt_shorter")
                 + T("Kanzi.Properties.C13_srt", "C13_srt_header", "C13_srt_header_sharp", "C13_srt_header_bound", "C13_srt", "C13_srt_len", "C13_srt_size_sharp", "C13_srt_total_forward", "C13_srt_bytes", "C13_srt_preprocess_perm", "C13_srt_preprocess_sorted", "C13_srt_inverse_faults_short", "C13_srt_inverse_faults_sum", "C13_srt_inverse_faults_freq")
                 + T("Kanzi.Properties.C13_srt", "C13_srt_total_inverse_partial", partial=True) + T(MCT, "transform_consts", "io_consts", "rlt_consts"),
@@ -302,7 +302,7 @@ PROPS["C19"] = {
     "assumptions": ["close(2) reports deferred write errors", "unlink is atomic"],
 }
 
-HOOK_COMMITS = ["a321cbc", "4ed9fca", "2a9b696"]
+HOOK_COMMITS = ["a321cbc", "4ed9fca", "2a9b696", "833f0d9"]
 
 # properties not (yet) claimed: reason shown in MANIFEST.not_applicable
 NOT_APPLICABLE = {}
